@@ -96,6 +96,27 @@ CHECKS = {
              "(+ one output step when activations are quantized).",
         note="Module-level forwards (each quantized module alone) rather than whole-model forwards; activation scales "
              "from one calibration batch with streamline=False. Known crash classes of C07 are steered around."),
+    "C09": dict(
+        technique="offline checker over recorded lifecycle histories: bit fingerprints of outputs, parameters, scales and "
+                  "inner tensors after every step of random forward/calibrate/freeze/move/deepcopy interleavings",
+        level="exploration", ref="4/C09",
+        text="Runnable models (7 architectures, degenerate weight rows included) go through random lifecycle histories on "
+             "the real API; the recorder stores byte fingerprints after every step and the checker allows changes only "
+             "across calibrate steps, requires freeze idempotence, untouched biases/scales/other modules, and after freeze "
+             "the requested qtype with a dense payload and one scale (zero-point) per output index or group.",
+        note="One device only: moves are cpu->cpu (so device-move code that only runs between different devices is not "
+             "executed); copies are copy.deepcopy."),
+    "C10": dict(
+        technique="offline checker over recorded save/load histories: value-by-value comparison of state dicts across three "
+                  "serializers and bit fingerprints of weights, scales, qtypes and outputs across three kinds of target",
+        level="exploration", ref="4/C10",
+        text="Quantized models (all weight qtypes, grouped low-bit, activations, three dtypes, frozen or not, calibrated "
+             "with or without streamlining) are saved with pickle / weights_only / safetensors, loaded into same-quantized, "
+             "default-quantized and requantize() targets for 1-3 cycles; every state_dict value must be a plain tensor or "
+             "string, every serializer must return an equal dict, and the reloaded model must be bit-identical in codes, "
+             "scales, zero-points, qtypes, activation scales, outputs and second state_dict.",
+        note="Known findings C10-F17 (LayerNorm with activations through requantize/default target) and C10-F18 (group "
+             "size lost for unfrozen int2/int4 on those targets) are matched by mechanism."),
 }
 
 PLANNED = {}
